@@ -355,7 +355,10 @@ func (k *c06Checker) build() align.SeqBag {
 	}
 	for i, s := range k.seqs {
 		if err := sb.AddSequence(rowNames[i], s, ""); err != nil {
-			k.c.Fatal("cannot build input %s: %v", jsonStr(k.cs), err)
+			// every input built here (equal-length rows for an alignment, any rows for a sequence set, rows of length 0
+			// included) is accepted by the tree this framework was written against; a refusal means the container no
+			// longer holds an input the property quantifies over
+			k.viol("input", "refused-by-the-container", fmt.Sprintf("AddSequence(%q, %q) fails: %v", rowNames[i], s, err))
 			return nil
 		}
 	}
@@ -550,7 +553,7 @@ func (k *c06Checker) hiBytes() {
 		sb := align.SeqBag(align.NewSeqBag(align.UNKNOWN))
 		for i, s := range k.seqs {
 			if err := sb.AddSequence(rowNames[i], s, ""); err != nil {
-				k.c.Fatal("cannot build input %s: %v", jsonStr(k.cs), err)
+				k.viol("input", "refused-by-the-container", fmt.Sprintf("AddSequence(%q, %x) fails: %v", rowNames[i], s, err))
 				return
 			}
 		}
